@@ -81,7 +81,7 @@ class Associate(Block):
             else:
                 var_obj = find_in_scope(self, assoc.link_name, obj_tree)
             if var_obj is not None:
-                assoc.var.link_obj = var_obj
+                assoc.var.set_link_obj(var_obj)
 
     def require_link(self):
         return True
